@@ -301,7 +301,9 @@ func init() {
 	d10 := "(D10) and/or chains are translated by structural recursion: the operator of a chain node joins its head with the translation of its whole tail."
 	addScoped("C07", "D10", in("clickhouse_planner"), d10)
 	addScoped("C09", "D10", in("internal_planner"), d10)
-	addScoped("C08", "O1", func(k string) bool { return strings.HasPrefix(k, "reader/logql/") && !strings.Contains(k, "internal_planner") }, "(O1) a batch handed to the next post-processing stage is replaced by a fresh slice, never re-sliced: the stage downstream (step re-bucketing) still reads it.")
+	addScoped("C08", "O1", func(k string) bool {
+		return strings.HasPrefix(k, "reader/logql/") && !strings.Contains(k, "internal_planner")
+	}, "(O1) a batch handed to the next post-processing stage is replaced by a fresh slice, never re-sliced: the stage downstream (step re-bucketing) still reads it.")
 	addScoped("C09", "S4", in("internal_planner"), "(S4) an in-process stage stores into an entry's label map only after excluding marker / error entries, whose map is nil.")
 	addScoped("C09", "S3", in("internal_planner"), "(S3) an in-process stage that changes the labels of an entry stores the fingerprint of the new label set on every path, so distinct label sets stay distinct series and equal ones are one.")
 	addScoped("C11", "D10", in("reader/traceql/"), d10)
@@ -315,6 +317,7 @@ func init() {
 	addScoped("C05", "F8", in("writer/"), f8)
 	addScoped("C05", "C3", in(""), "(C3) the per-entry arrays a decoder hands to the row builder belong to one length class for every body, so no request can leave the columns of the shared batch with different lengths (the block would be refused for every client whose rows are in it).")
 	addScoped("C12", "F7", in(""), "(F7) a pipeline stage that leaves its receive loop before the upstream channel is closed starts a goroutine draining it, so the stages above it (down to the database scan) can end.")
+	addScoped("C14", "H7", in(""), "(H7) names numbered from the per-execution counter inside a memoised statement use formats that nothing outside the memo uses, so a later execution cannot render a second alias of the same name.")
 	addScoped("C14", "H6", in(""), "(H6) per-execution flags kept in a plan object (isAliased) are reset on every return of Process or initialised before any read, so each execution starts from the same state.")
 	addScoped("C10", "E5", in(""), "(E5) rendered / escaped SQL text is never part of a fmt format string (its % sequences would be interpreted).")
 	r1 := "(R1) where a line reader returns data together with io.EOF, the EOF branch does not drop that data (the last record of a body without trailing newline)."
